@@ -45,9 +45,9 @@ func plans(c *core.Ctx) []Plan {
 	var ps []Plan
 	if !c.Thorough() {
 		ps = []Plan{
-			{Name: "op-window", KS: opToks, NC: 1, Handlers: opH, MaxBlocks: 4, MaxLeaves: 1, Events: evs(none, ks(2), ks(3)), MaxEvents: 2,
+			{Name: "op-window", KS: opToks, NC: 1, Handlers: opH, MaxBlocks: 5, MaxLeaves: 1, Events: evs(none, ks(2), ks(3)), MaxEvents: 2,
 				MaxStops: 1, Replay: 260},
-			{Name: "op-reorg", KS: opToks, NC: 1, Handlers: opH, MaxBlocks: 4, MaxLeaves: 2, MaxForkDepth: 1, Events: evs(none, ks(2), ks(3)), MaxEvents: 2,
+			{Name: "op-reorg", KS: opToks, NC: 1, Handlers: opH, MaxBlocks: 5, MaxLeaves: 2, MaxForkDepth: 1, Events: evs(none, ks(2), ks(3)), MaxEvents: 2,
 				Replay: 300},
 			{Name: "op-fault", KS: twoToks, NC: 1, Handlers: opH, MaxBlocks: 3, MaxLeaves: 2, MaxForkDepth: 1, Events: evs(none, ks(2)), MaxEvents: 1,
 				MaxFaults: 1, FaultAt: []string{"new", "start", "dlv"}, Replay: 200},
@@ -67,9 +67,9 @@ func plans(c *core.Ctx) []Plan {
 		}
 	} else {
 		ps = []Plan{
-			{Name: "op-window", KS: opToks, NC: 1, Handlers: opH, MaxBlocks: 5, MaxLeaves: 1, Events: evs(none, ks(2), ks(3)), MaxEvents: 2,
+			{Name: "op-window", KS: opToks, NC: 1, Handlers: opH, MaxBlocks: 6, MaxLeaves: 1, Events: evs(none, ks(2), ks(3)), MaxEvents: 2,
 				MaxStops: 1, Replay: 2500},
-			{Name: "op-reorg", KS: opToks, NC: 1, Handlers: opH, MaxBlocks: 5, MaxLeaves: 2, MaxForkDepth: 1, Events: evs(none, ks(2), ks(3)), MaxEvents: 2,
+			{Name: "op-reorg", KS: opToks, NC: 1, Handlers: opH, MaxBlocks: 6, MaxLeaves: 2, MaxForkDepth: 1, Events: evs(none, ks(2), ks(3)), MaxEvents: 2,
 				Replay: 3000},
 			{Name: "op-reorg2", KS: opToks, NC: 1, Handlers: opH, MaxBlocks: 5, MaxLeaves: 2, MaxForkDepth: 2, Events: evs(none, ks(2), ks(3)), MaxEvents: 2,
 				AllowSwitch: true, EarlyNew: true, Replay: 2500},
